@@ -192,6 +192,7 @@ fn print_bof<W: Write>(
     prev_chunk_idx: usize,
     chunk_idx: usize,
     prev_chunk_may_be_truncated: bool,
+    field_complete: bool,
 ) -> Result<usize> {
     let mut bof_idx = bof_idx;
 
@@ -217,7 +218,7 @@ fn print_bof<W: Write>(
                 prepend_delimiter,
             )?;
 
-            if b.r == Side::Some(curr_field) {
+            if field_complete && b.r == Side::Some(curr_field) {
                 bof_idx += 1;
             }
         }
@@ -300,19 +301,28 @@ fn cut_bytes_stream<R: BufRead, W: Write>(
                 eol_reached = chunk[chunk_idx] == eol;
                 bytes_to_consume = chunk_idx + 1;
 
-                // Handle field content before delimiter/EOL
-                if bytes_to_consume > 1 {
-                    bof_idx = print_bof(
-                        stdout,
-                        opt,
-                        bof_idx,
-                        curr_field,
-                        chunk,
-                        chunk_part_start_idx,
-                        chunk_idx,
-                        prev_chunk_may_be_truncated,
-                    )?;
+                // An empty record yields an empty record
+                if eol_reached
+                    && curr_field == 1
+                    && !prev_chunk_may_be_truncated
+                    && chunk_idx == chunk_part_start_idx
+                {
+                    stdout.write_all(&[opt.eol.into()])?;
+                    break;
                 }
+
+                // Handle field content before delimiter/EOL
+                bof_idx = print_bof(
+                    stdout,
+                    opt,
+                    bof_idx,
+                    curr_field,
+                    chunk,
+                    chunk_part_start_idx,
+                    chunk_idx,
+                    prev_chunk_may_be_truncated,
+                    true,
+                )?;
 
                 prev_chunk_may_be_truncated = false;
                 // Update chunk_part_start_idx to point to the next field
@@ -358,6 +368,7 @@ fn cut_bytes_stream<R: BufRead, W: Write>(
                         chunk_part_start_idx,
                         chunk.len(),
                         prev_chunk_may_be_truncated,
+                        false,
                     )?;
                     prev_chunk_may_be_truncated = true;
                 }
@@ -372,6 +383,18 @@ fn cut_bytes_stream<R: BufRead, W: Write>(
 
         // Handle EOF at end of line
         if eof && !eol_reached {
+            // The field that was being read ends here
+            bof_idx = print_bof(
+                stdout,
+                opt,
+                bof_idx,
+                curr_field,
+                &[],
+                0,
+                0,
+                prev_chunk_may_be_truncated,
+                true,
+            )?;
             print_filler_or_fallbacks(stdout, bof_idx, opt)?;
             stdout.write_all(&[opt.eol.into()])?;
             break 'new_line;
